@@ -33,6 +33,7 @@ HEADER = ("From Coq Require Import List String QArith Qcanon ZArith.\n"
           "Import ListNotations.\nOpen Scope string_scope.\n")
 
 KNOWN_TRUNCNORMAL = "TruncNormal.sample:unstandardised-bounds"
+KNOWN_TAIL_GOAL = "SimulationResult._goal_to_float:non-strict-bound-decided-false-at-equality"
 
 
 # ---- independent evaluator of the AST on exact rationals (frozen-suffix statistics) ----------
@@ -227,8 +228,9 @@ def k_action(ctx, cases, stats):
     """SimulationAction / SimulationResult: goals E(..), P(.. >= c), P(.. > c) averaged over two scripted samples
     must be the average of the goal on the two end states (computed here on exact rationals)"""
     tasks, meta = [], []
+    limit = ctx.pick(24, 150)
     for c in cases:
-        if len(c["paths"]) < 2 or "b" in c["vars"] and False:
+        if len(c["paths"]) < 2 or len(tasks) >= limit:
             continue
         x = c["vars"][0]
         y = c["vars"][-1]
@@ -261,6 +263,7 @@ def k_action(ctx, cases, stats):
         ctx.coverage["obligations"] += 1
         ctx.count({"action": c["src"], "s": [p1["script"], p2["script"]]})
         what = None
+        sig = "action:" + sig_of(c["src"])
         if "lines" not in r:
             what = f"SimulationAction failed: {r.get('etype')}: {str(r.get('msg'))[:200]}"
         elif len(r["lines"]) != len(goals):
@@ -273,20 +276,29 @@ def k_action(ctx, cases, stats):
                     v = None
                 if v != e:
                     what = f"goal {g}: --simulate prints `{line}`, the average over the two scripted samples is {e}"
+                    if g.startswith("P(") and ">=" in g.split(")")[0]:
+                        ends = [Fraction(p["states"][-1][0]) for p in (p1, p2)]
+                        strict = sum(Fraction(1 if t > 1 else 0) for t in ends) / 2
+                        if v == strict and any(t == 1 for t in ends):
+                            sig = KNOWN_TAIL_GOAL        # equality with the bound counted as "not >="
                     break
         if what is None:
             st["agree"] += 1
             ctx.coverage["discharged"] += 1
         else:
-            ctx.violation("action:" + sig_of(c["src"]), {"program": c["src"], "iterations": c["N"], "goals": goals,
+            if sig == KNOWN_TAIL_GOAL:
+                st["tail_goal_at_equality"] = st.get("tail_goal_at_equality", 0) + 1
+            new = ctx.violation(sig, {"program": c["src"], "iterations": c["N"], "goals": goals,
                                                          "scripts": [p1["script"], p2["script"]], "printed": r.get("lines"),
                                                          "expected": [str(e) for e in exp]},
                           f"{what}\n  scripts {p1['script']} and {p2['script']} (number_samples=2) of\n{c['src']}")
+            if not new:
+                ctx.coverage["discharged"] += 1          # instance decided: known finding
     stats["simulation_action"] = st
 
 
 def k_simulator(ctx):
-    nprog = ctx.pick(110, 420)
+    nprog = ctx.pick(70, 420)
     N0 = ctx.pick(3, 4)
     cap = 2000
     gens = simgen.generate(ctx.rng, nprog, size=ctx.pick(1, 2))
@@ -429,7 +441,7 @@ def pprog_text(p):
 
 
 def k_guarded(ctx):
-    n = ctx.pick(40, 160)
+    n = ctx.pick(30, 160)
     N = 3
     gens = simgen.guarded(ctx.rng, n)
     cases = []
@@ -494,7 +506,7 @@ def k_guarded(ctx):
 # ---- K 2: samplers ---------------------------------------------------------------------------
 def sampler_cases(ctx):
     r = ctx.rng
-    n = ctx.pick(4, 14)
+    n = ctx.pick(3, 14)
     dy = [Fraction(1, 2), Fraction(1, 4), Fraction(3, 4), Fraction(1, 8), Fraction(5, 8)]
     sq = [Fraction(1), Fraction(4), Fraction(9, 4), Fraction(1, 4), Fraction(9), Fraction(25, 16)]
     pw = [Fraction(1, 2), Fraction(1), Fraction(2), Fraction(4), Fraction(1, 4), Fraction(8)]
@@ -802,7 +814,7 @@ def mono_str(m):
 
 
 def k_analysis(ctx):
-    n = ctx.pick(10, 40)
+    n = ctx.pick(8, 40)
     N = 3
     progs = simgen.analysable(ctx.rng, n)
     monos = [{"x": 1}, {"y": 1}, {"x": 2}, {"x": 1, "y": 1}, {"c": 1}]
